@@ -7,21 +7,25 @@
 // index tuple is derived from the *position of each letter in its letter set*, never from GLM), templates enumerate
 // the constructor signatures from the declared overload shapes.
 //
-// Build configurations (the same source; the implementation under test is chosen by GLM's own configuration):
-//   default                                              : free functions, constructors (packed qualifiers)
-//   -DGLM_FORCE_SWIZZLE                                  : + member-function swizzles
-//   -DGLM_FORCE_SWIZZLE -DGLM_FORCE_INTRINSICS -msse2    : + operator swizzles (reads, writes, sequences, swizzle
-//                                                          constructors) on packed and aligned types
-//   -DGLM_FORCE_INTRINSICS -msse2                        : constructors / free functions on aligned types (SIMD specialisations)
-// Parts: -DGLMX_PART=k (k = 0..NPARTS-1) compile in parallel; without GLMX_PART everything is in one binary.
+// Build configurations (the same source; which swizzle implementation exists is GLM's own decision, read back in the evidence):
+//   default                                              : free functions, vector / matrix / quaternion constructors, shape conversions (packed qualifiers)
+//   -DGLM_FORCE_SWIZZLE                                  : the same + member-function swizzles
+//   -DGLM_FORCE_INTRINSICS -msse2                        : the same as default + aligned qualifiers (SIMD constructor specialisations)
+//   -DGLM_FORCE_SWIZZLE -DGLM_FORCE_INTRINSICS -msse2    : operator swizzles only - reads through the proxy -> vec conversion, write sequences,
+//                                                          swizzle constructors, packed and aligned (g++ needs 20-45 ms per vec temporary in this
+//                                                          mode, clang++ does not: prefer clang++ for this configuration; both work)
+// Parts: -DGLMX_PART=k, k = 0..18, compile in parallel (table at the registration in main); without GLMX_PART everything is in one binary.
 //
-// Feature macros for accessor families that do not compile on the current tree (each excluded family is reported as a
-// violation by the op "operator swizzle families excluded from this build" until the macro is given):
-//   -DC17_HAVE_ALIGNED_UVEC2_SWIZZLE   2-letter operator swizzles of aligned uint vectors (type_vec_simd.inl:105 assigns __m128i to a 64-bit storage)
-//   -DC17_HAVE_VEC4_SSSV1              vec4(scalar, scalar, scalar, vec1): the only one of the 16 scalar/vec1 mixes that is not declared (type_vec4.hpp:121-150); the generic
-//                                      template takes it and static_casts a vec1 (ill-formed)
-//   -DC17_HAVE_ALIGNED_VEC2_3LETTER    3-letter operator swizzles of aligned float/int/uint vec2 (negative shuffle immediate; g++ accepts it, clang does not:
-//                                      by default they are included under g++ and excluded under clang)
+// Feature macros for families that do not compile on the tree this driver was written against.  While a macro is absent the family is left
+// out of the build and the op "accessor / constructor families excluded ..." reports it as a violation; give the macro once the tree is repaired:
+//   -DC17_HAVE_ALIGNED_UVEC2_SWIZZLE   2-letter operator swizzles of aligned uint vectors (type_vec_simd.inl: _swizzle_base1<L,uint,Q,..,true> assigns __m128i to an 8-byte storage)
+//   -DC17_HAVE_VEC4_SSSV1              vec4(scalar, scalar, scalar, vec1): the only one of the 16 scalar/vec1 mixes that is not declared (type_vec4.hpp);
+//                                      the generic template takes it and static_casts a vec1 (ill-formed)
+//   -DC17_HAVE_ALIGNED_VEC2_3LETTER    3-letter operator swizzles of aligned float/int/uint vec2 (_MM_SHUFFLE with E3 = -1: g++ accepts the immediate,
+//                                      clang does not; included by default under g++, excluded under clang)
+// Families that are detected at compile time by SFINAE (no macro needed) and reported at run time: proxies without a value conversion
+// (3-letter swizzles of packed vec2, all swizzles of aligned vectors whose element type is not float/int/uint), duplicate-free proxies
+// without operator= (3-letter swizzles of vec4 that name w), free functions without a viable overload (xyzz(vec4)).
 #define GLM_ENABLE_EXPERIMENTAL
 #include <glm/glm.hpp>
 #include <glm/gtc/quaternion.hpp>
@@ -88,6 +92,20 @@ static std::vector<uint64_t> name_codes(int L, int nsets, bool dupfree_only) {
   std::vector<uint64_t> v; for (int c = 0; c < 336 * nsets; ++c) { Name m = decode(c); if (name_valid(m, L) && (!dupfree_only || name_dupfree(m))) v.push_back((uint64_t)c); } return v;
 }
 
+// oracle self-check: the code computed from the pasted letters must decode to the spelling of the pasted identifier
+static const char* spelled(int code) {
+  switch (code) {
+#define X(S, NAME, N, i0, i1, i2, i3) case C17_CODE(S, N, i0, i1, i2, i3): return #NAME;
+    C17_ALL(X)
+#undef X
+  } return "";
+}
+static void op_alphabet(const Case& c, Outcome& o) {
+  const int code = (int)c.w[0]; const Name m = decode(code); o.cls(m.n - 2);
+  if (std::strcmp(spelled(code), m.s) != 0 || (int)std::strlen(m.s) != m.n) { o.bad(98, "ORACLE: name code and spelling disagree"); return; }
+  static const char* LET[3] = {"xyzw", "rgba", "stpq"}; for (int k = 0; k < m.n; ++k) if (LET[m.set][m.idx[k]] != m.s[k]) { o.bad(99, "ORACLE: decoded index does not match the letter"); return; }
+}
+
 // =========================================================================================== values
 template <typename A> static inline uint64_t bits_of(A a) { return (uint64_t)(int64_t)a; }
 static inline uint64_t bits_of(float a) { return b32(a); }
@@ -116,7 +134,7 @@ template <typename T> static inline T tag(int pat, int i) {
   if (std::is_same<T, bool>::value) return (T)((pat >> i) & 1);
   if (std::is_floating_point<T>::value) {
     static const double V[NPAT_NUM][4] = {{2, 3, 5, 7}, {-1.5, 2.25, -3.75, 1000.5}, {-0.0, 1e30, -1e-30, 0.0}, {7, 5, 3, 2}};
-    if (pat == 2 && i == 1) return (T)(1.0 / V[2][3] > 0 ? std::numeric_limits<double>::infinity() : 0);   // +inf
+    if ((pat & 3) == 2 && i == 1) return (T)std::numeric_limits<double>::infinity();
     return (T)V[pat & 3][i]; }
   static const long long V[NPAT_NUM][4] = {{2, 3, 5, 7}, {11, 1000003, 17, 2147483629}, {101, 103, 107, 109}, {7, 5, 3, 2}};
   long long v = V[pat & 3][i]; if (std::is_signed<T>::value && (pat & 3) == 1 && (i & 1) == 0) v = -v; return (T)v;
@@ -209,7 +227,7 @@ template <int IMPL, int L, typename T, glm::qualifier Q> static void reg_read(En
   const int nsets = IMPL == IMPL_FREE ? 1 : 3;
   Op& op = E.add(std::string("read ") + IN[IMPL] + " of vec" + std::to_string(L) + "<" + TN<T>::name() + "," + qname(Q) + ">", op_read<IMPL, L, T, Q>);
   op.quick = {product(std::string("ALL_NAMES(L=") + std::to_string(L) + (nsets == 3 ? ", xyzw+rgba+stpq" : ", xyzw") + ") x TAG patterns", {list("names", name_codes(L, nsets, false), true), range("pattern", 0, NPat<T>::value, true)})};
-  if (L == 1) op.classes = {"2-letter", "3-letter", "4-letter"}; else op.classes = {"2-letter", "3-letter", "4-letter"};
+  op.classes = {"2-letter", "3-letter", "4-letter"};
 }
 template <int IMPL, typename T, glm::qualifier Q> static void reg_read234(Engine& E) { reg_read<IMPL, 2, T, Q>(E); reg_read<IMPL, 3, T, Q>(E); reg_read<IMPL, 4, T, Q>(E); }
 
@@ -389,7 +407,7 @@ template <typename U, typename T> static bool gen(int pat, int slot, U& u) {
       case 1: u = (U)(-(slot + 2.75)); return t_float || t_bool || t_signed;
       case 2: u = (U)(300.25 + 7 * slot); return !t_i8;
       case 3: u = (U)(slot % 3 == 0 ? 0.0 : slot % 3 == 1 ? 0.5 : -0.5); return true;
-      default: u = (U)(slot & 1 ? 0.1 : 16777217.0 + 2 * slot); return t_float || t_bool || std::is_same<T, int>::value || std::is_same<T, glm::uint>::value ? true : (slot & 1) != 0 ? true : false; } }
+      default: u = (U)(slot & 1 ? 0.1 : 16777217.0 + 2 * slot); return !(t_i8 || std::is_same<T, glm::uint16>::value); } }
   else if constexpr (std::is_same<U, int>::value) {
     switch (pat) { case 0: u = slot + 2; return true; case 1: u = -(slot + 3); return true; case 2: u = 1000 + 37 * slot; return true; case 3: u = slot & 1 ? 16777217 + 2 * slot : 70001 + 131 * slot; return true; default: u = slot & 1 ? -2147483647 + slot : 2147483647 - slot; return true; } }
   else if constexpr (std::is_same<U, glm::uint>::value) {
@@ -587,6 +605,8 @@ int main(int argc, char** argv) {
                    "constructor oracle: concatenate the argument components left to right and static_cast each to the destination element type with the same compiler; value patterns avoid undefined float->integer conversions (inadmissible (pattern, U, T) combinations are counted trivial)",
                    "cross-type constructor signatures: every (U,T) in {float,double,int,uint,i8,u16,bool}^2 with all arguments of type U, and with argument i of type (U+i) mod 7, for the (highp,highp) [and (aligned_highp,aligned_highp)] qualifier pair; the other qualifier pairs use U = T and one rotating scheme",
                    "write sequences: signed-int sequences whose exact value leaves +-2^30 and self-divisions by a zero component are cut (counted trivial)",
+                   "the operator-swizzle build registers only what is specific to it (operator reads/writes/swizzle constructors); free functions, quaternion, matrix and vector constructors are checked in the other builds",
+                   "operator-form packed reads cover float/int/double (one element-type-generic template), aligned reads float/int/uint (one SIMD specialisation each) and double (generic fallback)",
                    "which swizzle implementation is compiled is GLM's decision (GLM_CONFIG_SWIZZLE); on gcc/clang operator swizzles and aligned types exist only with GLM_FORCE_INTRINSICS"};
   E.extra_json["swizzle_impl"] = C17_OPER ? "\"operator\"" : C17_FUNC ? "\"function\"" : "\"disabled\"";
   E.extra_json["aligned_types"] = C17_ALIGNED ? "true" : "false";
@@ -601,6 +621,7 @@ int main(int argc, char** argv) {
 #define WRITE_ALL(T, Q) reg_write<2, T, glm::Q>(E, 3, 3); reg_write<3, T, glm::Q>(E, 2, 3); reg_write<4, T, glm::Q>(E, 2, 2);
 #define SWZCTOR_ALL(T, Q) reg_swzctor<2, T, glm::Q>(E); reg_swzctor<3, T, glm::Q>(E); reg_swzctor<4, T, glm::Q>(E);
 #if PART(0)
+  { Op& op = E.add("oracle self-check: the 3 x 336 generated names against their letter -> index decoding", op_alphabet); op.quick = {range("ALL_NAME_CODES", 0, 1008, true)}; op.classes = {"2-letter", "3-letter", "4-letter"}; }
   { Op& op = E.add("accessor / constructor families excluded from this build because they do not compile", op_excluded); op.quick = {range("family", 0, 3, true)}; op.classes = {"checked"}; }
 #endif
 #if C17_OPER
